@@ -81,3 +81,12 @@ func (c *Ctx) constIntQuiet(pkg, name string) (int64, bool) {
 	}
 	return 0, false
 }
+
+// bigLen is a large length/size that still fits the int of the configuration
+// being analysed.
+func bigLen() int64 {
+	if fold.IntSize == 32 {
+		return 1 << 30 // lengths near 2^31 cannot exist in a 32-bit address space next to the program
+	}
+	return 1 << 40
+}
